@@ -584,26 +584,34 @@ def compare_files(cfg, model_files, impl_files):
 # ------------------------------------------------------------------------------- Spec
 
 def abs_of_history(cfg, ops, reports):
-    """index (absolute) -> tag for every sample of every ACCEPTED call (cls == 0)"""
+    """index (absolute) -> tag for every sample of every ACCEPTED call (cls == 0).  A write without an index
+    (next_sample=None) continues right after the last sample the caller wrote: its indices come from the calls made
+    so far, not from what the implementation reports"""
     m = {}
     start = cfg.start
+    cur = 0
     for op, rep in zip(ops, reports):
         if op[0] == "session":
             start = op[1]
+            cur = 0
         if rep[0] != 0:
             continue
         if op[0] == "w":
             ns = op[1]
             if ns is None:
-                ns = rep[2] - op[2] if op[2] > 0 else rep[2]
+                ns = cur
             for j in range(op[2]):
                 m[start + ns + j] = op[3] + j
+            if op[2] > 0:
+                cur = ns + op[2]
         elif op[0] == "b":
             G, D, total = op[3], op[4], op[1]
             for bi in range(len(G)):
                 end = D[bi + 1] if bi + 1 < len(D) else total
                 for j in range(end - D[bi]):
                     m[start + G[bi] + j] = op[2] + D[bi] + j
+            if total > 0:
+                cur = G[-1] + (total - D[-1])
     return m
 
 
